@@ -158,7 +158,12 @@ func main() {
 		per = append(per, map[string]any{"graph": o.g.Name, "backend": o.backend, "states": o.states, "transitions": o.transitions, "depth": o.depth,
 			"closed": o.closed, "cap_hit": o.capHit, "terminal_states_all_delivered": o.delivered, "states_that_cannot_finish": o.stuckStates, "not_simulable": o.notSimulable})
 		if o.notSimulable != "" {
+			// every family is built to be simulable on both back ends: a generated file set that does not elaborate (or a
+			// machine the simulator cannot start) is a failure of the generators, not a reason to skip
 			fmt.Fprintf(os.Stderr, "note: %s/%s not simulable: %s\n", o.g.Name, o.backend, o.notSimulable)
+			run.Report(fmt.Sprintf("C02|stream|%s|not-simulable", sigBackend(o.backend)),
+				fmt.Sprintf("[graph %s, %s back end] the machine cannot be run: %s", o.g.Name, o.backend, o.notSimulable),
+				map[string]any{"kind": "stream", "graph": o.g, "backend": o.backend, "horizon": horizon, "stalls": stalls})
 			continue
 		}
 		if !o.closed {
